@@ -38,7 +38,7 @@ CloseFibre(got, exp, sh, a) ==
         nf    == Size(sh) \div n
         fib(k)  == ((k - 1) \div (n * inner)) * inner + ((k - 1) % inner) + 1
         base(f) == ((f - 1) \div inner) * n * inner + ((f - 1) % inner) + 1
-        fm == [f \in 1..nf |-> RSeqMaxAbs([v \in 1..n |-> exp[base(f) + (v - 1) * inner]])]
+        fm == Force([f \in 1..nf |-> RSeqMaxAbs([v \in 1..n |-> exp[base(f) + (v - 1) * inner]])])   \* tabulated once
     IN  \A k \in 1..Size(sh) : RLeq(RAbs(RSub(got[k], exp[k])), RMul(Tau, fm[fib(k)]))
 
 \* acceptance / refusal of the proportion vector fs
